@@ -12,6 +12,8 @@ eval_predicate) are stubs that return ANY node list of the stated shape.
              once, in strictly increasing key order - hence A|B = B|A, A|A = A and count(A|B) <= count(A)+count(B).
   paths      eval_filtered_loc_expr collects the step results of several context nodes (ANY lists, any order,
              duplicates allowed): the result is in non-decreasing key order and holds the same nodes.
+  axis       a step with [position() = t] (any 64-bit t) over 2-3 candidates in any order: along a forward axis the t-th in
+             document order is kept, along a reverse axis the t-th in reverse document order.
   filter     (E)[n]: eval_filter_expr numbers the nodes of the primary in the order it delivers them (document order by
              `union`), so a positional predicate selects the n-th node in document order.
 """
@@ -124,6 +126,46 @@ def work(job):
                 if sorted(got) != want:
                     return False
                 return sorted_cond(keys, r.fields[0], False)
+        elif what == "axis":
+            # a step with the positional predicate [position() = t]: along a forward axis the t-th candidate in document
+            # order, along a reverse axis (ancestor, ancestor-or-self, preceding, preceding-sibling) the t-th in reverse order
+            axis_name, cand = shape
+            target = z3.BitVec("target", 64)
+            REVERSE = ("Ancestor", "AncestorOrSelf", "Preceding", "PrecedingSibling")
+
+            def thunk(I):
+                nodes, _, _ = pool()
+                lst = [nodes[t] for t in cand]
+                for a in ("ancestor", "ancestor_and_self", "attributes", "child", "descendant", "descendant_and_self", "following",
+                          "following_sibling", "namespace", "preceding", "preceding_sibling"):
+                    I.stubs[a] = lambda I, n, lst=lst: SVec(lst)
+                I.stubs["eval_node_test"] = lambda I, *a: Ok(True)
+
+                def pred(I, p_, n, c):
+                    pos = I.try_repo_method(c, "get_position", [])
+                    return Ok(I.truth(kstd.v_eq(I, pos, target)))
+                I.stubs["eval_predicate"] = pred
+                ctx = K.mk_obj("Context", K.XMODEL, size=SVec(), position=SVec(), namespaces=SVec())
+                ax = K.mk_enum("AxisSpecifier", None, "Name", K.mk_enum("AxisName", None, axis_name))
+                return I.call_fn(K.XEVAL, I.dump.fns[(K.XEVAL, "eval_axis_node_test")], [ax, "test", SVec(["p0"]), "ctxnode", ctx])
+
+            def post(p):
+                if p["kind"] == "panic":
+                    return False
+                r = p["value"]
+                if not (isinstance(r, Enum) and r.variant == "Ok"):
+                    return False
+                got = tags(r.fields[0])
+                n = len(cand)
+                cases = [And(Or(target == 0, z3.UGT(target, n)), got == [])]
+                import itertools as _it
+                for perm in _it.permutations(cand):
+                    # perm = the candidates in increasing key order
+                    in_order = And(*[z3.ULT(keys[a], keys[b]) for a, b in zip(perm, perm[1:])])
+                    seq = list(reversed(perm)) if axis_name in REVERSE else list(perm)
+                    for t in range(n):
+                        cases.append(And(in_order, target == t + 1, got == [seq[t]]))
+                return Or(*cases)
         else:
             # filter: shape = (length of the primary's list, number of predicates is 1); the predicate is position() = t
             n_items = shape
@@ -196,6 +238,13 @@ PATH_PROBES = [("/r/n2/preceding-sibling::*", [0, 1]), ("/r/*/preceding-sibling:
                ("/r/n0/following-sibling::*/preceding-sibling::*", [0, 1])]
 
 
+AXIS_DOC = "<r><s id='1'><a/><s id='2'><b/><p/><c/></s><d/></s></r>"
+AXIS_PROBES = [("string(//p/ancestor-or-self::s[1]/@id)", "2"), ("string(//p/ancestor::s[1]/@id)", "2"), ("string(//p/ancestor::*[last()]/@id)", ""),
+               ("name(//p/preceding-sibling::*[1])", "b"), ("name(//p/following-sibling::*[1])", "c"), ("name(//p/preceding::*[1])", "b"),
+               ("name(//p/preceding::*[2])", "a"), ("name(//p/following::*[1])", "c"), ("name(//p/following::*[2])", "d"),
+               ("string(//p/ancestor-or-self::*[2]/@id)", "2"), ("name(//s[@id='1']/descendant::*[2])", "s"), ("name(//s[@id='1']/child::*[3])", "d")]
+
+
 def replay_union(rp, w):
     """operand lists (pool indices) under a key assignment -> union expression on <r><n0/><n1/><n2/></r>;
     element nK is the node with the K-th smallest key"""
@@ -224,6 +273,8 @@ def judge(case, out):
         return True
     if not out.get("ok"):
         return True
+    if "expected_value" in case:
+        return out.get("value") != case["expected_value"]
     import re
     got = [int(m) for m in re.findall(r"XmlElement \{ n(\d) \}", out.get("debug", ""))]
     return got != case["expected_nodes"]
@@ -284,11 +335,15 @@ def main():
                     jobs.append(("paths", (a, b, c), timeout_s))
     for n in range(0, M + 1):
         jobs.append(("filter", n, timeout_s))
+    for axis_name in ("Ancestor", "AncestorOrSelf", "Child", "Descendant", "DescendantOrSelf", "Following", "FollowingSibling", "Preceding", "PrecedingSibling", "Attribute"):
+        for cand in ((0, 1), (1, 0), (0, 1, 2), (2, 0, 1)):
+            jobs.append(("axis", (axis_name, cand), timeout_s))
     rep.bounds = {"pool": "%d nodes with symbolic pairwise-distinct non-zero 64-bit order keys" % M,
                   "union": "1-3 operands; operand lists of <= %d nodes (3 operands: <= %d)" % (3 if thorough else 2, 2 if thorough else 1),
                   "paths": "1-%d context nodes, step results of <= 2 nodes in any order with duplicates" % (3 if thorough else 2),
                   "filter": "(E)[position() = t] over a primary of 0-%d nodes, any 64-bit t" % M,
-                  "outside": "which nodes an axis or a node test selects (C05, not applicable); that order keys follow document order (C14) and that every node kind reports its key (C06.s.siblings); larger pools; predicates inside steps (their position is counted along the axis direction, not in document order)"}
+                  "axis": "10 named axes, 2-3 candidates in any order, [position() = t] for any 64-bit t",
+                  "outside": "which nodes an axis delivers or a node test keeps (C05); that order keys follow document order (C14) and that every node kind reports its key (C06.s.siblings); larger pools"}
     rep.assumptions += [
         "dom XmlNode::order is a stub returning the node's symbolic key; eval_path_expr / eval_loc_expr / eval_primary_expr / eval_predicate are stubs returning the lists of the shape under test",
         "std models of engine/sx/kstd.py: HashSet::insert, Vec::retain/append, sort_by_cached_key as a stable sort whose comparisons fork the path",
@@ -311,7 +366,7 @@ def main():
         elif res["status"] == "sat":
             g["sat"] += 1
             cur = first_bad.get(what)
-            size = sum(len(x) for x in shape) if what != "filter" else shape
+            size = sum(len(x) for x in shape) if what in ("union", "paths") else (len(shape[1]) if what == "axis" else shape)
             if cur is None or size < cur[0]:
                 first_bad[what] = (size, res)
         else:
@@ -332,6 +387,20 @@ def main():
                                   "%s on %s returns the elements %s; the node-set in document order without duplicates is %s" % (expr, DOC, got, want))
                 else:
                     rep.inconclusive.append("%s: model witness %s does not reproduce (%s -> %s)" % (oid, w, expr, str(rr)[:120]))
+            elif what == "axis":
+                hit = None
+                for expr, want in AXIS_PROBES:
+                    rr = rp.run({"op": "query", "doc": AXIS_DOC, "input": expr})
+                    rep.replays += 1
+                    if "panic" in rr or "died" in rr or not (rr.get("ok") and rr.get("value") == want):
+                        hit = (expr, want, rr)
+                        break
+                if hit:
+                    status = "violated"
+                    rep.violation(oid, {"op": "query", "doc": AXIS_DOC, "input": hit[0], "property": "C07", "expected_value": hit[1]},
+                                  "%s on %s gives %s; positions along the axis direction give %r (model witness %s)" % (hit[0], AXIS_DOC, hit[2].get("value", hit[2]), hit[1], w))
+                else:
+                    rep.inconclusive.append("%s: model witness %s does not show on the axis probes" % (oid, w))
             elif what == "paths":
                 # the real path evaluator on shapes that need the final sort: reverse axes and several context nodes
                 hit = None
